@@ -1,0 +1,19 @@
+//go:build verif
+
+package text
+
+// Exported wrappers of the text index key functions for verification harnesses.
+
+func VerifTermKey(term string) []byte { return termKey(term) }
+
+func VerifDocumentKey(id uint64) []byte { return documentKey(id) }
+
+func VerifTermFromKey(key []byte) (string, bool) {
+	var si *setCacheItem
+	return si.IdFromKey(key)
+}
+
+func VerifDocIdFromKey(key []byte) (uint64, bool) {
+	var dc docCacheItem
+	return dc.IdFromKey(key)
+}
